@@ -18,6 +18,7 @@ import (
 	"path/filepath"
 	"sort"
 	"strconv"
+	"strings"
 	"testing"
 	"testing/synctest"
 	"time"
@@ -55,11 +56,14 @@ type c15Trace struct {
 	Events []c15Event `json:"events"`
 }
 
-var c15Keys = []string{"a", "a/b", "c"}
+var c15Keys = []string{"a", "a/b", "c", "d", "d/e", "d/e/f"}
 var c15Spell = map[string][]string{
 	"a":   {"a", "/a", "a/", "//a//", "/a/"},
 	"a/b": {"a/b", "/a//b/", "a///b", "/a/b", "a/b//"},
 	"c":   {"c", "/c", "c/", "///c"},
+	"d":     {"d", "/d/"},
+	"d/e":   {"d/e", "/d//e", "d/e/"},
+	"d/e/f": {"d/e/f", "/d/e/f/", "d//e///f", "/d/e//f"},
 }
 
 type c15Client struct {
@@ -169,9 +173,13 @@ func c15Run(t *testing.T, id string, seed int64, nOps int) c15Trace {
 			case r < 88:
 				ev.Op = "ToolBad"
 				ev.Client = "tool"
-				if oc := srv.OwnerClient("/test/a"); key == "a/b" && oc != "" && oc != "-" {
-					key = "c" // the tool cannot create children of an ephemeral node either
-					ev.Key = key
+				for anc := key; strings.Contains(anc, "/"); {
+					anc = anc[:strings.LastIndexByte(anc, '/')]
+					if oc := srv.OwnerClient("/test/" + anc); oc != "" && oc != "-" {
+						key = "c" // the tool cannot create children of an ephemeral node either
+						ev.Key = key
+						break
+					}
 				}
 				srv.Put("/test/"+key, "{bad")
 			case r < 92:
